@@ -350,7 +350,14 @@ class Sm9World:
         def cmp256(ex, argv):
             a = z3.ZeroExt(1, sc(ex, argv[0])); b = z3.ZeroExt(1, sc(ex, argv[1]))
             return Sc(Sym(z3.If(z3.UGT(a, b), z3.BitVecVal(1, 32), z3.If(z3.ULT(a, b), z3.BitVecVal(-1, 32), z3.BitVecVal(0, 32)))), "i32")
-        s = {"sm9_u256_pairing": pairing, "Fp12::pow": gpow, "<Fp12 as FieldElement>::fp_mul": gmul, "<Fp12 as FieldElement>::to_bytes_be": gbytes,
+        def from_be_bytes(ex, argv):
+            # byteorder read_u64::<BigEndian> x4 over a Cursor: the big-endian integer of the first 32 bytes (panics on fewer)
+            vals = slice_vals(ex, argv[0])
+            if len(vals) < 32:
+                ex.ctx.oblige("panic", False, "u256_from_be_bytes on %d bytes (read_u64 unwrap fails)" % len(vals), "u256_from_be_bytes")
+                raise Infeasible()
+            return u256_val(z3.Concat(*[dom.term(v) for v in vals[:32]]))
+        s = {"sm9_u256_pairing": pairing, "Fp12::pow": gpow, "u256_from_be_bytes": from_be_bytes, "<Fp12 as FieldElement>::fp_mul": gmul, "<Fp12 as FieldElement>::to_bytes_be": gbytes,
              "Point::point_mul": pmul, "Point::point_add": padd, "Point::to_bytes_be": pbytes, "Point::is_on_curve": oncurve, "Point::g_mul": g1gen,
              "TwistPoint::g_mul": g2gen, "twist_point_add_full": tadd, "Point::from_bytes": fromb, "sm9_random_u256": rng,
              "sm9_u256_hash1": h1, "sm9_u256_hash2": h2, "mod_n_add": bi(W.NADD, "n_add"), "mod_n_sub": bi(W.NSUB, "n_sub"), "mod_n_mul": bi(W.NMUL, "n_mul"),
